@@ -48,7 +48,47 @@ func observe(o interp.Outcome) string {
 	return o.Show()
 }
 
+// judgePieces: the text T (characters and escapes) must denote the same characters as a whole string and as the head,
+// middle and tail piece of an interpolated string; if the plain string rejects T, the interpolated forms do too.
+func judgePieces(c *Case) (sig, detail string) {
+	T := c.Src
+	in := interp.Shared()
+	plain := in.Run(`"`+T+`"`, interp.Opts{})
+	forms := []string{`"` + T + `#{1}"`, `"#{1}` + T + `"`, `"#{1}` + T + `#{2}"`, `"` + T + `#{1}` + T + `"`}
+	if plain.Kind != interp.Value {
+		c.Want = "ERROR"
+		for _, f := range forms {
+			if o := in.Run(f, interp.Opts{}); o.Kind == interp.Value {
+				c.Got = observe(o)
+				return "pieces:escape-rejected-in-plain-string-accepted-in-piece", fmt.Sprintf("\"%s\" is rejected, but %s evaluates to %s", T, f, c.Got)
+			} else if o.Kind == interp.HostPanic {
+				return "pieces:host-panic", f + " gave " + o.Show()
+			}
+		}
+		return "", ""
+	}
+	ps, ok := plain.Obj.(*object.PanStr)
+	if !ok {
+		return "", ""
+	}
+	wants := []string{ps.Value + "1", "1" + ps.Value, "1" + ps.Value + "2", ps.Value + "1" + ps.Value}
+	for i, f := range forms {
+		o := in.Run(f, interp.Opts{})
+		c.Got, c.Want = observe(o), fmt.Sprintf("str:%q", wants[i])
+		if o.Kind == interp.HostPanic {
+			return "pieces:host-panic", f + " gave " + o.Show()
+		}
+		if c.Got != c.Want {
+			return "pieces:piece-denotes-other-characters-than-plain-string", fmt.Sprintf("%s evaluates to %s; the same text as a plain string is %q, so the whole must be %s", f, c.Got, ps.Value, c.Want)
+		}
+	}
+	return "", ""
+}
+
 func judge(c *Case) (sig, detail string) {
+	if c.Form == "pieces" {
+		return judgePieces(c)
+	}
 	o := interp.Shared().Run(c.Src, interp.Opts{})
 	c.Got = observe(o)
 	if o.Kind == interp.HostPanic {
@@ -320,6 +360,29 @@ func genString(t *rapid.T) Case {
 		return Case{Form: kind, Src: `"` + lit.String() + `#{1 + 1}` + lit.String() + `#{"x"}` + lit.String() + `"`, Want: fmt.Sprintf("str:%q", want.String()+"2"+want.String()+"x"+want.String())}
 	}
 	return Case{Form: kind, Src: `"` + lit.String() + `"`, Want: fmt.Sprintf("str:%q", want.String())}
+}
+
+var wideEscapes = []string{`\n`, `\t`, `\\`, `\"`, `\x41`, `\xe3\x81\x82`, `\x80`, `\xff`, `\x7f`, `\101`, `\303\251`, `\377`, `\200`, `\u00e9`, `\u65e5`, `\U0001F600`, `\a`, `\b`, `\f`, `\r`, `\v`, `\0`, `\x00`,
+	`\'`, `\e`, `\q`, `\x4`, `\u12`, `\8`, `\400`}
+
+// TestEscapesInPieces: a wider escape alphabet (whatever the plain string accepts or rejects), plain string vs pieces.
+func TestEscapesInPieces(t *testing.T) {
+	vt.Check(t, vt.N(3000, 200000), func(rt *rapid.T) {
+		var b strings.Builder
+		for n := rapid.IntRange(1, 6).Draw(rt, "n"); n > 0; n-- {
+			if rapid.Bool().Draw(rt, "escape") {
+				b.WriteString(rapid.SampledFrom(wideEscapes).Draw(rt, "esc"))
+			} else {
+				a := rapid.SampledFrom(textAtoms).Draw(rt, "text")
+				if a == "#" || a == "{" || a == "}" {
+					a = "+"
+				}
+				b.WriteString(a)
+			}
+		}
+		c := Case{Form: "pieces", Src: b.String()}
+		run(rt, c, true, true)
+	})
 }
 
 func TestStringLiterals(t *testing.T) {
